@@ -70,6 +70,7 @@ GENERATORS = [
     ("gen_core", ("miniconf/src/error.rs", "miniconf/src/key.rs", "miniconf/src/node.rs", "miniconf/src/walk.rs",
                   "miniconf/src/iter.rs"), "Core.lean"),
     ("gen_text", ("miniconf/src/node.rs", "miniconf/src/jsonpath.rs", "miniconf/src/key.rs"), "Text.lean"),
+    ("gen_impls", ("miniconf/src/impls.rs", "miniconf/src/key.rs", "miniconf/src/tree.rs"), "Impls.lean"),
 ]
 
 
